@@ -19,6 +19,7 @@ RULE = ('Invalid requests of every documented kind (negative amount, over-withdr
 RULE += " Composite pf_mark_ahead: a valid direct Portfolio mark of one held asset at a time ahead of the broker clock, then a broker update to an instant in between (must be refused with nothing re-marked). Directed scripts with the library's own BacktestDataHandler over one or two CSV sources whose first source quotes a held asset negative on one day (optionally another held asset without any data, booked before or after): the update must raise ValueError and change nothing."
 RULE += " Refusals are also compared on each holding's own mark (price and the time it carries)."
 RULE += ' 30% of the real-handler scripts use a market-neutral book (short q and long q at one price: market value exactly 0.0).'
+RULE += " Composite pf_sub_ahead: a valid direct Portfolio subscription at a time ahead of the broker clock (the portfolio's clock moves, the marks of its holdings do not), then a broker update in between - refused, and no holding of any portfolio re-marked."
 ASSUMPTIONS = [
     'portfolio/broker clocks are not listed observables: a refused request may advance them',
     'an ExecutionHandler call is a composite (submit accepted, update refused) and is not judged as one request',
